@@ -15,6 +15,18 @@ def extra_lines(ds):
             res.append("REOPEN %s %s %s" % (ds.did, w, m))
     for w in dp.WRITERS:
         res.append("SCHEMA %s.sch2.%s %s %s" % (ds.did, w, ds.did, w))
+    # other ways of driving the writers: ONE map object refilled by the caller for every row (memr,
+    # bigr), and a writer written out half-way and filled further before its Flush (mem3)
+    import random as _r
+    rq = _r.Random(len(ds.rows) * 31 + 7)
+    vals = ds.values()
+    for w in ("memr", "bigr", "mem3"):
+        res.append("IDS %s.ids.%s %s %s" % (ds.did, w, ds.did, w))
+        res.append("SCHEMA %s.sch.%s %s %s" % (ds.did, w, ds.did, w))
+        leaves = [dp.e_eq(c, v) for c in sorted(vals) for v in sorted(vals[c])]
+        rq.shuffle(leaves)
+        for qn, e in enumerate(leaves[:6] + [("N", x) for x in leaves[:2]] + ([("O", leaves[:3])] if leaves else [])):
+            res.append("QUERY %s.x%s%d %s %s %s 0 %s GB 0" % (ds.did, w, qn, ds.did, w, dp.MODES[qn % 2], dp.enc_expr(e)))
     # the file as bbolt sees it: key I = be32(number of rows), keys I, S, then one 9-byte
     # V key per distinct (column, value) pair in ascending order (KeyBytes.v)
     for w in dp.WRITERS:
@@ -49,6 +61,14 @@ def extra_compare(ds, impl, model, spec):
                 raise core.FrameworkError("model-internal disagreement on the schema of %s" % ds.did)
             if a != b:
                 fails.append((ds, None, "GetSchema (%s writer, %s): %s" % (w, "after reopen" if tag == "sch2" else "first open", (a or "NONE")[:300]), "schema: %s" % (b or "NONE")[:300]))
+    for w in ("memr", "bigr", "mem3"):
+        how = {"memr": "IndexWriter fed from ONE map object refilled for every row", "bigr": "BigIndexWriter fed from ONE map object refilled for every row",
+               "mem3": "IndexWriter written out half-way (WriteToBoltDatabase), filled further, then flushed"}[w]
+        for k in [key for key in model if key[1].startswith(ds.did + ".") and (key[1].endswith(".ids." + w) or key[1].endswith(".sch." + w) or (".x" + w) in key[1])]:
+            a, b = impl.get(k), model.get(k)
+            if a != b and not nul:
+                fails.append((ds, None, "%s — %s %s: %s" % (how, k[0], k[1], (a or "NONE")[:200]), "%s" % (b or "NONE")[:200]))
+                break
     for k in [("RAWKEYS", "%s.raw.%s" % (ds.did, w)) for w in dp.WRITERS] + [("CURSOR", "%s.cur" % ds.did)]:
         a, b = impl.get(k), model.get(k)
         if a != b and not (nul and k[0] == "RAWKEYS"):
